@@ -84,6 +84,66 @@ def run_c18(pid, spec, tier, seed, replay=None):
     return {"violations": viols, "crashes": crashes, "coverage": cov, "trace_files": []}
 
 
+def run_registry(pid, spec, tier, seed, replay=None):
+    """C12 (and the registry / server clauses of C10, C14): multi-tunnel registry scenarios executed against the real
+    TunnelServiceHandler / ReverseTunnelServer, validated by TLC against spec/RegistryMon.tla; the registry design
+    itself is model-checked exhaustively (spec/Registry.tla)."""
+    import subprocess
+    import concurrent.futures as cf
+    binary = orch.build_harness()
+    if replay:
+        scenarios = [json.load(open(os.path.join(replay, "script.json")))["scenario"]] * 3
+    else:
+        scenarios = gen.fam_registry(seed, 120 if tier == "quick" else 1500)
+    d = orch.fresh_dir("run-%s-%s" % (pid, tier))
+    shards = min(8, len(scenarios))
+    crashes = []
+
+    def one(k):
+        part = scenarios[k::shards]
+        scn = os.path.join(d, "rscn%d.ndjson" % k)
+        trc = os.path.join(d, "rtrace%d.ndjson" % k)
+        open(scn, "w").write("".join(json.dumps(x) + "\n" for x in part))
+        skip = 0
+        while skip < len(part):
+            prog = os.path.join(d, "rprog%d" % k)
+            p = subprocess.run([binary, "-test.run", "TestRegistry", "-test.timeout", "0"],
+                               env=dict(os.environ, VERIF_REGISTRY="1", VERIF_SCENARIOS=scn, VERIF_TRACES=trc, VERIF_PROGRESS=prog,
+                                        VERIF_SKIP=str(skip), GOTRACEBACK="all"),
+                               stdout=subprocess.PIPE, stderr=subprocess.STDOUT, text=True)
+            st = open(prog).read().split() if os.path.exists(prog) else []
+            if p.returncode == 0 and st and st[0] == "done":
+                break
+            if not st or st[0] == "done":
+                raise orch.Infra("registry harness failed without progress information:\n" + p.stdout[-1500:])
+            import re
+            m = re.search(r"^(panic: .*|fatal error: .*)$", p.stdout, re.M)
+            crashes.append({"scn": int(st[0]), "name": part[int(st[0])]["name"], "rc": p.returncode, "banner": m.group(1) if m else "",
+                            "timeout": False, "output": p.stdout[-4000:], "scenario": part[int(st[0])]})
+            skip = int(st[0]) + 1
+        return trc
+    with cf.ThreadPoolExecutor(max_workers=shards) as ex:
+        traces = list(ex.map(one, range(shards)))
+    viols, lines, states = orch.validate(traces, spec="RegistryMon")
+    n, distinct = orch.count_traces(traces)
+    cov = {"states": states, "transitions": states, "traces_validated_against_impl": n, "evaluations": n, "distinct_nontrivial": distinct,
+           "rule": "one evaluation = one registry history (tunnels opened/ended/broken, routed RPCs, readiness calls, gated sub-steps) executed "
+                   "against the real handler and validated by TLC against spec/RegistryMon.tla; distinct by hash of (step, result) sequence",
+           "exhaustive": False, "trace_events": lines, "scenarios": len(scenarios)}
+    mc = orch.tlc(os.path.join(orch.SPEC, "MC_Registry.tla"), os.path.join(orch.SPEC, "Registry_quick.cfg" if tier == "quick" else "Registry.cfg"), workers=8, heap="6g")
+    if "No error has been found" in mc.stdout:
+        st = orch.tlc_stats(mc.stdout)
+        cov["states"] += st[0]
+        cov["transitions"] += st[1]
+        cov["registry_model_states"] = st[0]
+    else:
+        import re
+        m = re.search(r"Invariant (\w+) is violated", mc.stdout)
+        viols.append({"formula": "C12_Model_" + (m.group(1) if m else "error"), "detail": "", "scenario": {"name": "Registry.tla"},
+                      "trace_file": None, "trace": None, "line": 0, "k": None})
+    return {"violations": viols, "crashes": crashes, "coverage": cov, "trace_files": traces}
+
+
 def run_c05(pid, spec, tier, seed, replay=None):
     """C05: (1) the sender core: TLC checks FlowSender.tla exhaustively (safety + liveness), every transition of
     its stepped state graph is replayed against the real defaultSender through the yield gates and the recordings
@@ -153,6 +213,9 @@ PROPS = {
             "quick": lambda s: gen.fam_flow(s, 48) + gen.fam_data(s, 16),
             "thorough": lambda s: gen.fam_flow(s, 400) + gen.fam_data(s, 100, big=True),
             "technique": "TLC model checking of FlowSender.tla + exhaustive gated replay of its state graph against the real sender (trace validation); tunnel-level trace validation; Apalache induction on FlowAbs.tla (thorough)"},
+    "C12": {"level": "model_checking", "runner": run_registry, "engine": "tlc-registry", "hang": True,
+            "also": ["C14_ServeLeavesNothing", "C14_RegistryEmptyAtEnd", "C10_NoNewTunnels", "C10_StopMeansStopped"],
+            "technique": "TLC model checking of Registry.tla (two-step registration, unregister, round robin, callbacks) + TLA+ trace validation of multi-tunnel histories of the real handler (RegistryMon.tla)"},
     "C18": {"level": "model_checking", "runner": run_c18, "engine": "tlc-grpc-timeout",
             "technique": "TLA+ reference function (GrpcTimeout.tla); TLC enumerates the input domain and validates every observed handler deadline",
             "text": "the gRPC wire rule for grpc-timeout is a total TLA+ function; TLC enumerates the structured input domain completely, each input is executed "
